@@ -26,7 +26,10 @@ def main():
                 shutil.copytree(os.path.join("/repo", d), os.path.join(base, d))
             for f in ("CMakeLists.txt", "config.h.in"):
                 shutil.copy(os.path.join("/repo", f), base)
-            r = subprocess.run(["patch", "-p1", "-s", "--no-backup-if-mismatch", "-i", os.path.join(V, "seeded", sid, "patch.diff")], cwd=base, capture_output=True, text=True)
+            pf = os.path.join(V, "seeded", sid, "patch_rebased.diff")
+            if not os.path.exists(pf):
+                pf = os.path.join(V, "seeded", sid, "patch.diff")
+            r = subprocess.run(["patch", "-p1", "-s", "--no-backup-if-mismatch", "-i", pf], cwd=base, capture_output=True, text=True)
             if r.returncode != 0:
                 print("%-8s patch does not apply to the current /repo: %s" % (sid, (r.stdout + r.stderr).strip()[:200]))
                 res[sid] = None
